@@ -627,6 +627,11 @@ PATHS = [b"/", b"", b"/file.txt", b"/dir/", b"/dir", b"/\xff", b"/\xc3", b"/\xe4
 PATHS_EXTRA = [
     b"/d/1.2.3", b"/d/.", b"/d/..", b"/d/1..2", b"/d/.5", b"/d/5.", b"/d/1.5.", b"/d/" + b"9" * 5000 + b".5", b"/d/0." + b"0" * 5000, b"/d/1e5", b"/d/1E+5", b"/d/-1.5", b"/d/+1.5", b"/d/1,5", b"/d/1_0.5",
     b"/d/\xd9\xa3.\xd9\xa3", b"/d/NaN", b"/d/Infinity", b"/d/1.5/", b"/d/" + b"." * 300,
+    # number spellings a convertor might start to accept: scientific notation with exponents beyond what Decimal / float / int take
+    b"/d/1e1000000000000000000", b"/d/10e999999999999999999", b"/d/1e-99999999999999999999999999", b"/d/0.0e" + b"9" * 5000, b"/d/1E" + b"9" * 30, b"/d/1e+" + b"9" * 25,
+    b"/d/1.5e400", b"/d/1e309", b"/d/-0e" + b"9" * 40, b"/d/sNaN123", b"/d/inf", b"/d/-Infinity", b"/d/0x1p5", b"/d/1__0", b"/d/\xef\xbc\x91.5",
+    b"/i/1e5", b"/i/1e" + b"9" * 30, b"/i/0x" + b"f" * 5000, b"/i/0b1", b"/i/1_000", b"/i/+" + b"9" * 5000, b"/i/-0", b"/i/\xe0\xa5\xa7",
+    b"/t/2021-02-30", b"/t/+2021-03-07", b"/t/2021-W10-1", b"/t/20210307", b"/t/2021-03-07T00:00", b"/t/10000-01-01", b"/t/" + b"9" * 30 + b"-01-01",
     b"/i/-1", b"/i/+1", b"/i/1_0", b"/i/ 1", b"/i/1 ", b"/i/0x10", b"/i/" + b"9" * 4300, b"/i/" + b"9" * 4301, b"/i/" + b"0" * 5000, b"/i/1.0", b"/i/\xc2\xb2", b"/i/\xef\xbc\x91", b"/i/1\n", b"/i/",
     b"/t/" + b"9" * 20 + b"-01-01", b"/t/99999-01-01", b"/t/10000-01-01", b"/t/2021-1-1", b"/t/2021-01-1", b"/t/2021-02-30", b"/t/2021-02-29", b"/t/2020-02-29", b"/t/9999-12-31", b"/t/0001-01-01", b"/t/2021-00-10",
     b"/t/2021-10-00", b"/t/2021-99-99", b"/t/\xd9\xa2\xd9\xa0\xd9\xa2\xd9\xa1-\xd9\xa0\xd9\xa3-\xd9\xa0\xd9\xa7", b"/t/2021-03-07T00:00", b"/t/2021-03-07\n", b"/t/2021-" + b"9" * 30 + b"-07", b"/t/2021-03-" + b"9" * 30,
